@@ -234,6 +234,29 @@ pub uninterp spec fn acos_r(x: real) -> real;
 pub uninterp spec fn floor_r(x: real) -> real;
 pub uninterp spec fn ceil_r(x: real) -> real;
 pub uninterp spec fn round_r(x: real) -> real;
+pub uninterp spec fn asin_r(x: real) -> real;
+pub uninterp spec fn atan_r(x: real) -> real;
+pub uninterp spec fn sinh_r(x: real) -> real;
+pub uninterp spec fn cosh_r(x: real) -> real;
+pub uninterp spec fn tanh_r(x: real) -> real;
+pub uninterp spec fn exp_r(x: real) -> real;
+pub uninterp spec fn ln_r(x: real) -> real;
+pub uninterp spec fn log2_r(x: real) -> real;
+pub uninterp spec fn log10_r(x: real) -> real;
+pub uninterp spec fn cbrt_r(x: real) -> real;
+pub uninterp spec fn trunc_r(x: real) -> real;
+pub uninterp spec fn fract_r(x: real) -> real;
+pub uninterp spec fn signum_r(x: real) -> real;
+pub uninterp spec fn exp2_r(x: real) -> real;
+pub uninterp spec fn asinh_r(x: real) -> real;
+pub uninterp spec fn acosh_r(x: real) -> real;
+pub uninterp spec fn atanh_r(x: real) -> real;
+pub uninterp spec fn atan2_r(y: real, x: real) -> real;
+pub uninterp spec fn powf_r(x: real, y: real) -> real;
+pub uninterp spec fn powi_r(x: real, n: int) -> real;
+pub uninterp spec fn hypot_r(x: real, y: real) -> real;
+pub uninterp spec fn min_value_r() -> real;
+pub uninterp spec fn max_value_r() -> real;
 pub uninterp spec fn eps_r() -> real;
 pub uninterp spec fn pi_r() -> real;
 pub open spec fn rel_eq_r(a: real, b: real, eps: real, mr: real) -> bool {
@@ -294,6 +317,30 @@ impl R {
     pub fn PI() -> (r: R) ensures r.v@ == pi_r() { R { v: Ghost(pi_r()) } }
     pub fn max(self, o: R) -> (r: R) ensures r.v@ == max_r(self.v@, o.v@) { R { v: Ghost(max_r(self.v@, o.v@)) } }
     pub fn min(self, o: R) -> (r: R) ensures r.v@ == min_r(self.v@, o.v@) { R { v: Ghost(min_r(self.v@, o.v@)) } }
+    pub fn asin(self) -> (r: R) ensures r.v@ == asin_r(self.v@) { R { v: Ghost(asin_r(self.v@)) } }
+    pub fn atan(self) -> (r: R) ensures r.v@ == atan_r(self.v@) { R { v: Ghost(atan_r(self.v@)) } }
+    pub fn sinh(self) -> (r: R) ensures r.v@ == sinh_r(self.v@) { R { v: Ghost(sinh_r(self.v@)) } }
+    pub fn cosh(self) -> (r: R) ensures r.v@ == cosh_r(self.v@) { R { v: Ghost(cosh_r(self.v@)) } }
+    pub fn tanh(self) -> (r: R) ensures r.v@ == tanh_r(self.v@) { R { v: Ghost(tanh_r(self.v@)) } }
+    pub fn exp(self) -> (r: R) ensures r.v@ == exp_r(self.v@) { R { v: Ghost(exp_r(self.v@)) } }
+    pub fn ln(self) -> (r: R) ensures r.v@ == ln_r(self.v@) { R { v: Ghost(ln_r(self.v@)) } }
+    pub fn log2(self) -> (r: R) ensures r.v@ == log2_r(self.v@) { R { v: Ghost(log2_r(self.v@)) } }
+    pub fn log10(self) -> (r: R) ensures r.v@ == log10_r(self.v@) { R { v: Ghost(log10_r(self.v@)) } }
+    pub fn cbrt(self) -> (r: R) ensures r.v@ == cbrt_r(self.v@) { R { v: Ghost(cbrt_r(self.v@)) } }
+    pub fn trunc(self) -> (r: R) ensures r.v@ == trunc_r(self.v@) { R { v: Ghost(trunc_r(self.v@)) } }
+    pub fn fract(self) -> (r: R) ensures r.v@ == fract_r(self.v@) { R { v: Ghost(fract_r(self.v@)) } }
+    pub fn signum(self) -> (r: R) ensures r.v@ == signum_r(self.v@) { R { v: Ghost(signum_r(self.v@)) } }
+    pub fn exp2(self) -> (r: R) ensures r.v@ == exp2_r(self.v@) { R { v: Ghost(exp2_r(self.v@)) } }
+    pub fn asinh(self) -> (r: R) ensures r.v@ == asinh_r(self.v@) { R { v: Ghost(asinh_r(self.v@)) } }
+    pub fn acosh(self) -> (r: R) ensures r.v@ == acosh_r(self.v@) { R { v: Ghost(acosh_r(self.v@)) } }
+    pub fn atanh(self) -> (r: R) ensures r.v@ == atanh_r(self.v@) { R { v: Ghost(atanh_r(self.v@)) } }
+    pub fn atan2(self, o: R) -> (r: R) ensures r.v@ == atan2_r(self.v@, o.v@) { R { v: Ghost(atan2_r(self.v@, o.v@)) } }
+    pub fn powf(self, o: R) -> (r: R) ensures r.v@ == powf_r(self.v@, o.v@) { R { v: Ghost(powf_r(self.v@, o.v@)) } }
+    pub fn powi(self, n: i32) -> (r: R) ensures r.v@ == powi_r(self.v@, n as int) { R { v: Ghost(powi_r(self.v@, n as int)) } }
+    pub fn hypot(self, o: R) -> (r: R) ensures r.v@ == hypot_r(self.v@, o.v@) { R { v: Ghost(hypot_r(self.v@, o.v@)) } }
+    pub fn to_radians(self) -> (r: R) ensures r.v@ == self.v@ * pi_r() / 180real { R { v: Ghost(self.v@ * pi_r() / 180real) } }
+    pub fn min_value() -> (r: R) ensures r.v@ == min_value_r() { R { v: Ghost(min_value_r()) } }
+    pub fn max_value() -> (r: R) ensures r.v@ == max_value_r() { R { v: Ghost(max_value_r()) } }
     pub fn default_epsilon() -> (r: R) ensures r.v@ == eps_r() { R { v: Ghost(eps_r()) } }
     pub fn default_max_relative() -> (r: R) ensures r.v@ == eps_r() { R { v: Ghost(eps_r()) } }
     /// approx::RelativeEq for floats, in exact arithmetic
